@@ -281,6 +281,34 @@ def run(chk):
     histories(chk, rng)
     results(chk, rng)
     templates(chk, rng)
+    many_classes(chk)
+
+
+def many_classes(chk):
+    """class lists far longer than a 16-bit position can index (the supported values go up to 131071): a trace is counted in the class EQUAL to its
+    value - here, with classes declared as all values 0..39999 (ascending and descending), in the class whose position the value designates"""
+    import scared
+    vals = np.array([[5], [33000], [33000], [39999], [5], [32768], [32767], [65], [39999], [20000]], dtype='int32')
+    t = np.arange(10, dtype='int16').reshape(10, 1) + 1
+    for label, classes in (('ascending', np.arange(40000, dtype='int32')), ('descending', np.arange(39999, -1, -1, dtype='int32'))):
+        for cls_ in (scared.SNRDistinguisher, scared.MIADistinguisher):
+            kw = {'bin_edges': np.linspace(0, 12, 4)} if cls_ is scared.MIADistinguisher else {}
+            o = cls_(partitions=classes, **kw)
+            o.update(t[:6], vals[:6])
+            o.update(t[6:], vals[6:])
+            if cls_ is scared.MIADistinguisher:
+                counts = np.asarray(o.accumulators)[0].sum(axis=0)[:, 0]
+            else:
+                counts = np.asarray(o.counters).reshape(-1)
+            want = np.zeros(40000, dtype='int64')
+            for v in vals[:, 0]:
+                want[int(np.nonzero(classes == v)[0][0])] += 1
+            chk.count(('many-classes', label, cls_.__name__), nontrivial=True)
+            chk.traces_validated += 1
+            if counts.shape != want.shape or not np.array_equal(counts.astype('int64'), want):
+                badpos = np.nonzero(counts.astype('int64') != want)[0][:6].tolist() if counts.shape == want.shape else []
+                chk.violation(f'{cls_.__name__}:a trace contributes to the class equal to its value (40000 declared classes)', {'property': 'C12', 'part': 'many', 'order': label, 'positions_differing': badpos},
+                              f'{cls_.__name__} with 40000 declared classes ({label}): class counts differ at positions {badpos}')
 
 
 def replay(chk, path):
